@@ -112,3 +112,348 @@ Theorem C06_nonvacuous :
   let x := mkAct 2 2 0 0 60 (mkDemand 0 0 1 0) 0 0 in
   feasible (wdur w) (w_veh w) t = true /\ eval_activity (wdur w) (w_veh w) t 1 x = None /\ (2 < length t)%nat.
 Proof. vm_compute. repeat split; reflexivity || lia. Qed.
+
+(* ===========================================================================================================================
+   TOUR LIMITS (max distance / max duration), TOUR SIZE, SKILLS and STRICT LOCKS in the goal: Model/Limits.v (tour_limits.rs,
+   travel_info.rs, skills.rs, locked_jobs.rs, the route-level gate of eval_job_insertion_in_route), the extended step-by-step
+   simulation Spec/FeasibleX.v, proofs in Proofs/LimitsP.v.  Tied to the code by the sub-stream `c06_limits`. *)
+From VRP Require Import Spec.FeasibleX Model.Limits Proofs.LimitsP.
+
+(* the boolean checker of the extended simulation decides the declarative notion *)
+Theorem C06_feasible_x_checker_sound_complete : forall dur dist v lim vs req t,
+  feasible_x_b dur dist v lim vs req t = true <-> FeasibleX dur dist v lim vs req t.
+Proof. exact feasible_x_b_iff. Qed.
+
+(* what the travel limits read - the totals cached by update_statistics - are the distance / duration of the simulation *)
+Theorem C06_cached_totals_are_simulated_totals : forall dur dist t,
+  total_distance dist t = tour_distance dist t /\ (sched_ok dur t -> total_duration t = tour_duration dur t).
+Proof. exact (fun dur dist t => conj (total_distance_spec dist t) (total_duration_spec dur t)). Qed.
+
+(* a delay at the start of a walk reaches its end at most 1:1 and never as a gain (ANY matrix): why the O(1) duration test
+   - "old duration + shift of the next activity's departure" - can only over-estimate *)
+Theorem C06_delay_propagation_nonexpansive : forall dur acts loc d d', d <= d' ->
+  sim_finish dur loc d acts <= sim_finish dur loc d' acts <= sim_finish dur loc d acts + (d' - d).
+Proof. exact sim_finish_mono. Qed.
+
+(* SOUNDNESS, one activity: the route-level tests of the job (skills, tour size) and the activity-level tests (time windows,
+   capacity, travel limits with the cached totals) accept  =>  the tour with the activity is feasible for the extended simulation:
+   time windows, shift end, capacity, sum of legs <= max distance, (end of the last activity - departure) <= max duration,
+   job activities <= tour size, every job's skill requirement met.  Any matrix (no triangle inequality), open or closed tour. *)
+Theorem C06_limits_eval_sound : forall dur dist g v req closed t idx x js,
+  (idx < length t)%nat -> sched_ok dur t -> tour_shape closed t ->
+  d_change (a_dem (hd x t)) = 0 -> simple_demand (a_dem x) -> 0 <= a_job x ->
+  req (a_job x) = req_of js ->
+  FeasibleX dur dist v (g_lim g) (olist (g_vskills g)) req t ->
+  eval_route_skills (g_vskills g) js = None ->
+  eval_route_size (g_lim g) closed t 1 = None ->
+  eval_activity_x dur dist g v t idx x = None ->
+  FeasibleX dur dist v (g_lim g) (olist (g_vskills g)) req (insert_after t idx x).
+Proof. exact eval_x_sound. Qed.
+
+(* SOUNDNESS of the whole evaluation of a single job (route-level gate of every feature, then the scan over legs x places x
+   windows with every activity-level test; position Any / Concrete / Last): a success names a leg of the tour and the tour with
+   the job at the answered place and window is feasible for the extended simulation *)
+Theorem C06_limits_eval_single_sound : forall dur dist g v shift_start closed req t j js pos idx pl c,
+  goodx dur dist g v closed req t -> simple_demand (s_dem j) -> 0 <= s_id j -> req (s_id j) = req_of js ->
+  eval_single_x dur dist g v shift_start closed t j js pos = ESuccess idx pl c ->
+  (idx < leg_count closed t)%nat /\
+  FeasibleX dur dist v (g_lim g) (olist (g_vskills g)) req (insert_after t idx (place_act j pl)).
+Proof. exact eval_single_x_sound. Qed.
+
+(* the scan used there is Core's scan with the activity-level evaluation as a parameter *)
+Theorem C06_parametrised_scan_is_core_scan : forall dur est v closed t j pos rc,
+  analyze_g (eval_activity dur v) est closed t j pos rc = analyze dur est v closed t j pos rc.
+Proof. exact analyze_g_core. Qed.
+
+(* HISTORY: any sequence of evaluations whose successes are really applied (insert + schedule refresh) keeps the tour well
+   shaped, consistently scheduled and feasible for the extended simulation *)
+Theorem C06_limits_history_feasible : forall dur dist g v shift_start closed req t t',
+  ins_history_x dur dist g v shift_start closed req t t' -> goodx dur dist g v closed req t -> goodx dur dist g v closed req t'.
+Proof. exact construction_good_x. Qed.
+
+(* EXACTNESS of the distance test: accepted iff the new sum of legs is within the limit *)
+Theorem C06_distance_limit_exact : forall dur dist lim L A p x B,
+  l_dist lim = Some L -> l_dur lim = None ->
+  (eval_act_limits dur dist lim (cached_totals dist (A ++ p :: B)) p x (hd_error B) = None
+   <-> tour_distance dist (A ++ p :: x :: B) <= L).
+Proof. exact act_limits_distance_exact. Qed.
+
+(* EXACTNESS of the duration test where it is exact: on the last leg of an open tour, and whenever the insertion does not let the
+   next activity leave earlier (always so for metric durations) and nothing behind the next activity waits *)
+Theorem C06_duration_limit_exact_without_later_waiting : forall dur dist lim L A p x B,
+  sched_ok dur (A ++ p :: B) -> l_dist lim = None -> l_dur lim = Some L ->
+  match B with
+  | [] => True
+  | n :: r => dep_after dur p (a_dep p) n <= dep_after dur x (dep_after dur p (a_dep p) x) n /\
+              no_wait_from dur (a_loc n) (dep_after dur p (a_dep p) n) r
+  end ->
+  (eval_act_limits dur dist lim (cached_totals dist (A ++ p :: B)) p x (hd_error B) = None
+   <-> tour_duration dur (A ++ p :: x :: B) <= L).
+Proof. exact act_limits_duration_exact. Qed.
+
+(* ... and a witness that in general it is ONLY conservative: a position whose real tour duration stays within the limit is
+   rejected, because a wait later in the tour absorbs the delay the estimate counts in full (replayed on the real code:
+   tools/props/c06_limits.py corpus case 1; not a violation of the property, whose completeness clause is about time windows,
+   shift times and capacity only) *)
+Theorem C06_duration_limit_conservative_witness :
+  let w := w4 (Some 0) in
+  let g := mkXGoal (mkLim None (Some 115) None) None [] [] in
+  let t := build_tour w [(1, 1, 0, 0, 1000, dzero); (2, 2, 0, 100, 1000, dzero)] in
+  let x := mkAct 9 3 0 0 1000 dzero 0 0 in
+  goodx (wdur w) (wdist w) g (w_veh w) true (fun _ => no_req) t /\
+  eval_activity_x (wdur w) (wdist w) g (w_veh w) t 0 x = Some (CODE_DUR, false) /\
+  FeasibleX (wdur w) (wdist w) (w_veh w) (g_lim g) [] (fun _ => no_req) (insert_after t 0 x) /\
+  tour_duration (wdur w) t = 110 /\ tour_duration (wdur w) (insert_after t 0 x) = 110.
+Proof. exact duration_limit_conservative_witness. Qed.
+
+(* the soundness theorems need the cached totals: on a route without tour state (`unwrap_or(0.)`; never the case for routes of
+   the registry, which are initialised by accept_route_state) the length of the empty closed tour start -> end is forgotten *)
+Theorem C06_limits_need_cached_totals_witness :
+  let w := w4 (Some 1) in
+  let lim := mkLim (Some 15) None None in
+  let t := build_tour w [] in
+  let x := mkAct 9 2 0 0 1000 dzero 0 0 in
+  eval_act_limits (wdur w) (wdist w) lim None (nth 0 t x) x (hd_error (skipn 1 t)) = None /\
+  eval_act_limits (wdur w) (wdist w) lim (cached_totals (wdist w) t) (nth 0 t x) x (hd_error (skipn 1 t)) = Some (CODE_DIST, false) /\
+  tour_distance (wdist w) (insert_after t 0 x) = 20.
+Proof. exact limits_need_cached_totals_witness. Qed.
+
+(* EXACTNESS of the tour-size test *)
+Theorem C06_tour_size_exact : forall lim closed t idx x L,
+  tour_shape closed t -> is_job x = true -> l_size lim = Some L ->
+  (eval_route_size lim closed t 1 = None <-> (job_count (insert_after t idx x) <= L)%nat).
+Proof. exact route_size_exact. Qed.
+
+(* skills: sound for every record; EXACT for every record JobSkills::new builds (it never stores an empty set) *)
+Theorem C06_skills_sound : forall vs js, eval_route_skills vs js = None -> SkillsSat (olist vs) (req_of js).
+Proof. exact route_skills_sound. Qed.
+
+Theorem C06_skills_exact : forall vs a o n,
+  eval_route_skills vs (Some (js_new a o n)) = None <-> SkillsSat (olist vs) (req_of (Some (js_new a o n))).
+Proof. exact (fun vs a o n => route_skills_exact vs (js_new a o n) (or_introl (js_new_normal a o n))). Qed.
+
+(* an EMPTY oneOf set (the fields of JobSkills are public): rejected by a vehicle that has a skills dimension although nothing is
+   required, accepted by a vehicle without one (replayed on the real code: corpus cases 6 and 7) *)
+Theorem C06_skills_empty_one_of_witness :
+  let js := Some (mkJS None (Some []) None) in
+  eval_route_skills (Some [1; 2]) js = Some (CODE_SKILLS, true) /\ SkillsSat [1; 2] (req_of js) /\ eval_route_skills None js = None.
+Proof. exact skills_empty_one_of_witness. Qed.
+
+(* strict locks: an accepted insertion of a job that is not part of the rule leaves the locked jobs one contiguous block in the
+   listed order, anchored where the rule says (right after the departure / right before the arrival / both) *)
+Theorem C06_strict_lock_insertion_sound : forall dur dist g v closed t idx x,
+  tour_shape closed t -> (idx < leg_count closed t)%nat -> 0 <= a_job x ->
+  eval_activity_x dur dist g v t idx x = None ->
+  forall r, In r (g_rules g) -> ~ In (a_job x) (lr_jobs r) -> LockOk r t -> LockOk r (insert_after t idx x).
+Proof. exact eval_x_lock_sound. Qed.
+
+(* non-vacuity: a vehicle with all three limits, skills and a strict departure lock; a feasible tour; a history of two accepted
+   evaluations, the second one exactly reaching the distance limit 40 and the size limit 3 *)
+Theorem C06_limits_nonvacuous :
+  let w := w4 (Some 0) in
+  goodx (wdur w) (wdist w) nv_goal (w_veh w) true nv_req nv_t0 /\ locks_ok nv_goal nv_t0 /\
+  exists t2, ins_history_xl (wdur w) (wdist w) nv_goal (w_veh w) 0 true nv_req nv_t0 t2 /\
+             tour_distance (wdist w) t2 = 40 /\ job_count t2 = 3%nat /\ served t2 = [1; 9; 8].
+Proof. exact limits_nonvacuous. Qed.
+
+(* =============================================================================================================================
+   MULTI-TRIP (reload intervals) AND MULTI-DIMENSIONAL CAPACITY, step level (sub-stream c06_multitrip).
+   Model: Model/CapacityMT.v (route_intervals.rs, multi_trip.rs, reloads.rs, capacity.rs, load.rs; generic in the load type as the
+   code is: `load_ops`, instances SingleOps = SingleDimLoad, MultiOps = MultiDimLoad); lemmas: Proofs/CapacityMTP.v.
+   The capacity statement is the one of Spec/Intervals.v (`IvlOk`): per reload interval, static deliveries on board from the
+   interval start, static pickups until its end, shipments carried across; one statement per dimension (`proj_tour O get`: the
+   tour seen through dimension `get`, marker activities become the specification's reload activities).
+   (The imports are local to this section.) *)
+From VRP Require Spec.Intervals Proofs.IntervalsP Model.CapacityMT Proofs.CapacityMTP.
+Section C06_multitrip.
+Import Spec.Intervals Proofs.IntervalsP Model.CapacityMT Proofs.CapacityMTP.
+
+(* ---- load types ---- *)
+(* MultiDimLoad::can_fit is the conjunction of the one-dimensional tests over all LOAD_DIMENSION_SIZE = 8 array slots ... *)
+Theorem C06_md_can_fit_pointwise : forall x y, ml_wf x -> ml_wf y ->
+  (ml_can_fit x y = true <-> forall d, (d < LOAD_DIMENSION_SIZE)%nat -> ml_get y d <= ml_get x d).
+Proof. exact ml_can_fit_iff. Qed.
+
+(* ... so for vectors of different lengths (MultiDimLoad::new pads with zeros) a missing dimension counts as 0 on either side:
+   an amount in a dimension the capacity vector does not have never fits *)
+Theorem C06_md_can_fit_lengths : forall a b x y, ml_new a = Some x -> ml_new b = Some y ->
+  (ml_can_fit x y = true <-> forall d, nth d b 0 <= nth d a 0).
+Proof. exact ml_can_fit_new. Qed.
+
+(* partial_cmp (used by is_new_interval_needed): Some c iff there is at least one dimension and EVERY dimension compares as c;
+   two loads without dimensions are incomparable (not even equal); a load without dimensions counts as "not empty" *)
+Theorem C06_md_partial_cmp : forall x y c,
+  (ml_partial_cmp x y = Some c <->
+   (0 < Nat.max (ml_size x) (ml_size y))%nat /\
+   forall i, (i < Nat.max (ml_size x) (ml_size y))%nat -> (ml_get x i ?= ml_get y i) = c)
+  /\ (ml_size x = 0%nat -> ml_size y = 0%nat -> ml_partial_cmp x y = None)
+  /\ ml_is_not_empty ml_default = true.
+Proof. exact (fun x y c => conj (ml_partial_cmp_some x y c) (conj (ml_partial_cmp_empty x y) ml_default_is_not_empty)). Qed.
+
+(* both load types are seen dimension by dimension through a `load_hom`: add / sub / max_load act pointwise, can_fit implies <=,
+   a non-zero component makes the load "not empty" *)
+Theorem C06_mt_load_views :
+  load_hom SingleOps get_single (fun _ => True) /\
+  forall d, (d < LOAD_DIMENSION_SIZE)%nat -> load_hom MultiOps (get_dim d) ml_wf.
+Proof. exact (conj hom_single hom_multi). Qed.
+
+(* ---- intervals and cached states ---- *)
+(* get_route_intervals = the index ranges of the tour cut in front of every marker activity *)
+Theorem C06_mt_route_intervals : forall O a r, is_marker_act O a = false ->
+  get_route_intervals O (a :: r) = bounds 0 (cutb (is_marker_act O) (a :: r)).
+Proof. exact route_intervals_bounds. Qed.
+
+(* the cached states of recalculate_states, any number of intervals, any load type, seen through one dimension: position idx lies
+   in an interval A ++ p :: B (p = the activity at idx) that starts with L0 on board = what is carried in from the intervals before
+   (`carry_after`: the threading of Spec.Intervals.IvlOk) + the interval's static deliveries; then
+   current = the running load after p; max-past = the largest running load of the interval up to p (and 0);
+   max-future = the largest running load of the interval from p on *)
+Theorem C06_mt_states_exact : forall O get wf, load_hom O get wf -> forall t cap idx,
+  mt_tour_ok O t -> tour_wf O wf t -> (idx < length t)%nat ->
+  let st := gr_st (accept_route_state O true cap t) in
+  exists S1 A p B S2,
+    ivls (proj_tour O get t) = S1 ++ (A ++ p :: B) :: S2 /\ (length (concat S1) + length A)%nat = idx /\
+    let L0 := carry_after 0 S1 + total_static_delivery (A ++ p :: B) in
+    let cur := get (st_at O (gs_cur st) idx) in
+    let past := get (st_at O (gs_past st) idx) in
+    let fut := get (st_at O (gs_fut st) idx) in
+    cur = load_after L0 (A ++ [p]) /\
+    past = lmax 0 (currents L0 (A ++ [p])) /\
+    (forall y, In y (cur :: currents cur B) -> y <= fut) /\ In fut (cur :: currents cur B).
+Proof. exact mt_states_exact_dim. Qed.
+
+(* one interval, SingleDimLoad: they ARE the state vectors of Model/Core.v (the one-interval lemmas of C06_eval_sound) *)
+Theorem C06_mt_states_single_interval : forall t cap,
+  mt_tour_ok SingleOps t -> forallb (fun a => negb (is_marker_act SingleOps a)) t = true ->
+  let st := gr_st (accept_route_state SingleOps true cap t) in
+  let pt := proj_tour SingleOps get_single t in
+  gs_cur st = cur_states pt /\ gs_past st = past_states pt /\ gs_fut st = fut_states pt.
+Proof. exact mt_states_single_interval. Qed.
+
+(* ---- soundness of the insertion test ---- *)
+(* SingleDimLoad: an activity (static delivery / pickup / both, or the dynamic pickup / delivery part of a shipment) accepted by
+   the capacity constraint at position idx of a tour whose every interval satisfies the capacity statement leaves a tour whose
+   every interval satisfies it - any number of intervals.  A target that is not part of a multi job must not carry a dynamic
+   pickup: see C06_mt_standalone_dynamic_pickup_refuted *)
+Theorem C06_mt_insertion_sound_single : forall t cap idx x,
+  mt_tour_ok SingleOps t ->
+  IvlOk cap 0 (ivls (proj_tour SingleOps get_single t)) ->
+  (idx < length t)%nat -> is_marker_act SingleOps x = false ->
+  simple_demand (a_dem (proj_act SingleOps get_single x)) ->
+  (ga_multi x = false -> d_pd (a_dem (proj_act SingleOps get_single x)) = 0) ->
+  mt_evaluate_activity SingleOps PolicyLast (accept_route_state SingleOps true (Some cap) t) idx x = None ->
+  IvlOk cap 0 (ivls (proj_tour SingleOps get_single (ginsert_after t idx x))).
+Proof. exact mt_insertion_sound_single. Qed.
+
+(* MultiDimLoad, every dimension count: the same in each of the 8 dimensions (pointwise) *)
+Theorem C06_mt_insertion_sound_multi : forall t cap idx x,
+  mt_tour_ok MultiOps t -> ml_tour_wf t -> act_wf MultiOps ml_wf x -> ml_wf cap ->
+  (idx < length t)%nat -> is_marker_act MultiOps x = false ->
+  mt_evaluate_activity MultiOps PolicyLast (accept_route_state MultiOps true (Some cap) t) idx x = None ->
+  forall d, (d < LOAD_DIMENSION_SIZE)%nat ->
+    IvlOk (ml_get cap d) 0 (ivls (proj_tour MultiOps (get_dim d) t)) ->
+    simple_demand (a_dem (proj_act MultiOps (get_dim d) x)) ->
+    (ga_multi x = false -> d_pd (a_dem (proj_act MultiOps (get_dim d) x)) = 0) ->
+    IvlOk (ml_get cap d) 0 (ivls (proj_tour MultiOps (get_dim d) (ginsert_after t idx x))).
+Proof. exact mt_insertion_sound_multi. Qed.
+
+(* finding C06-F4: without that hypothesis the statement is false of the code - a stand-alone job with dynamic pickup 1 is accepted
+   in front of the reload (capacity 4; tour: delivery 1, RELOAD, delivery 4) and the second interval then starts with 5 on board;
+   the same demand as part of a multi job is rejected there *)
+Theorem C06_mt_standalone_dynamic_pickup_refuted :
+  exists t cap idx x,
+    mt_tour_ok SingleOps t /\ IvlOk cap 0 (ivls (proj_tour SingleOps get_single t)) /\ (idx < length t)%nat /\
+    is_marker_act SingleOps x = false /\ simple_demand (a_dem (proj_act SingleOps get_single x)) /\ ga_multi x = false /\
+    mt_evaluate_activity SingleOps PolicyLast (accept_route_state SingleOps true (Some cap) t) idx x = None /\
+    ~ IvlOk cap 0 (ivls (proj_tour SingleOps get_single (ginsert_after t idx x))) /\
+    ivl_loads_of (proj_tour SingleOps get_single (ginsert_after t idx x)) = [1; 0; 1; 5; 1; 1] /\
+    mt_evaluate_activity SingleOps PolicyLast (accept_route_state SingleOps true (Some cap) t) idx (ex_f4_job true) = Some false.
+Proof. exact standalone_dynamic_pickup_refuted. Qed.
+
+(* ---- exactness ---- *)
+(* static demand of a single job (a delivery amount, a pickup amount, or both), SingleDimLoad, running loads never negative:
+   accepted IFF every interval of the tour after the insertion satisfies the capacity statement (only the receiving one changes) *)
+Theorem C06_mt_static_exact : forall t cap idx x d,
+  mt_tour_ok SingleOps t ->
+  IvlOk cap 0 (ivls (proj_tour SingleOps get_single t)) ->
+  (idx < length t)%nat -> is_marker_act SingleOps x = false -> ga_multi x = false ->
+  get_demand SingleOps x = Some d -> static_nonneg (proj_demand SingleOps get_single (Some d)) ->
+  (forall y, In y (gs_cur (gr_st (accept_route_state SingleOps true (Some cap) t))) -> 0 <= y) ->
+  (mt_evaluate_activity SingleOps PolicyLast (accept_route_state SingleOps true (Some cap) t) idx x = None
+   <-> IvlOk cap 0 (ivls (proj_tour SingleOps get_single (ginsert_after t idx x)))).
+Proof. exact mt_static_exact. Qed.
+
+(* ---- the d-dimensional test is the conjunction of d one-dimensional tests ---- *)
+(* SingleDimLoad: has_demand_violation = None says exactly that the three tests pass (`AccZ`) ... *)
+Theorem C06_hdv_single_iff : forall (r : groute SingleOps) pivot d st cap, gr_cap r = Some cap ->
+  (has_demand_violation SingleOps r pivot (Some d) st = None <->
+   AccZ cap (nth pivot (gs_past (gr_st r)) 0) (nth pivot (gs_fut (gr_st r)) 0) (nth pivot (gs_cur (gr_st r)) 0)
+        (proj_demand SingleOps get_single (Some d))).
+Proof. exact hdv_single_iff. Qed.
+
+(* ... MultiDimLoad: None iff they pass in each of the 8 dimensions - given that the cached states are within the capacity (as they
+   are on a tour that satisfies the capacity statement): a dimension whose amount is 0 is still compared, because is_not_empty
+   looks at the whole vector *)
+Theorem C06_md_violation_pointwise : forall (r : groute MultiOps) pivot d st cap,
+  gr_cap r = Some cap -> ml_wf cap ->
+  Forall ml_wf (gs_cur (gr_st r)) -> Forall ml_wf (gs_past (gr_st r)) -> Forall ml_wf (gs_fut (gr_st r)) ->
+  dem_wf MultiOps ml_wf (Some d) ->
+  (forall k, (k < LOAD_DIMENSION_SIZE)%nat ->
+     ml_get (st_at MultiOps (gs_past (gr_st r)) pivot) k <= ml_get cap k /\
+     ml_get (st_at MultiOps (gs_fut (gr_st r)) pivot) k <= ml_get cap k /\
+     ml_get (st_at MultiOps (gs_cur (gr_st r)) pivot) k <= ml_get cap k) ->
+  (has_demand_violation MultiOps r pivot (Some d) st = None <->
+   forall k, (k < LOAD_DIMENSION_SIZE)%nat ->
+     AccZ (ml_get cap k) (ml_get (st_at MultiOps (gs_past (gr_st r)) pivot) k) (ml_get (st_at MultiOps (gs_fut (gr_st r)) pivot) k)
+          (ml_get (st_at MultiOps (gs_cur (gr_st r)) pivot) k) (proj_demand MultiOps (get_dim k) (Some d))).
+Proof. exact md_violation_pointwise. Qed.
+
+(* ---- reload marker insertion ---- *)
+(* what the code checks for a marker activity (MarkerInsertionPolicy::Last; a marker job has no demand, so the capacity part is
+   vacuous): the previous activity is a job activity (not the vehicle start) and the next one, if any, is the vehicle end;
+   in particular a reload directly behind another reload at the tour end IS accepted *)
+Theorem C06_mt_marker_accept_iff : forall O (r : groute O) idx m,
+  is_marker_act O m = true -> ga_dem m = None ->
+  (mt_evaluate_activity O PolicyLast r idx m = None <->
+   (exists p, nth_error (gr_acts r) idx = Some p /\ is_terminal (ga_core p) = false) /\
+   (forall n, nth_error (gr_acts r) (S idx) = Some n -> is_terminal (ga_core n) = true)).
+Proof. exact mt_marker_accept_iff. Qed.
+
+(* a reload marker without demand inserted at ANY position (accepted or not) splits its interval into two that satisfy the
+   capacity statement, every other interval keeps its loads: a shipment picked up before the reload stays on board, but it was on
+   board there before as well; static pickups of the left part are unloaded, static deliveries of the right part load later.
+   Needs non-negative static amounts. *)
+Theorem C06_mt_marker_insertion_sound : forall O get wf, load_hom O get wf -> forall t cap idx m,
+  IvlOk (get cap) 0 (ivls (proj_tour O get t)) -> (idx < length t)%nat ->
+  is_marker_act O m = true -> ga_dem m = None -> static_amounts_nonneg (proj_tour O get t) ->
+  IvlOk (get cap) 0 (ivls (proj_tour O get (ginsert_after t idx m))).
+Proof. exact (fun O get wf _ => mt_marker_insertion_sound_dim O get). Qed.
+
+(* ---- non-vacuity: two intervals, two capacity dimensions (10, 5), a shipment (3, 1) carried across the reload ---- *)
+Theorem C06_mt_nonvacuous :
+  mt_tour_ok MultiOps ex_mt_tour /\ ml_tour_wf ex_mt_tour /\ ml_wf ex_mt_cap /\
+  get_route_intervals MultiOps ex_mt_tour = [(0, 2); (3, 6)]%nat /\
+  (forall d, (d < LOAD_DIMENSION_SIZE)%nat -> IvlOk (ml_get ex_mt_cap d) 0 (ivls (proj_tour MultiOps (get_dim d) ex_mt_tour))) /\
+  ivl_loads_of (proj_tour MultiOps (get_dim 0) ex_mt_tour) = [4; 0; 3; 8; 3; 0; 0] /\
+  mt_evaluate_activity MultiOps PolicyLast (accept_route_state MultiOps true (Some ex_mt_cap) ex_mt_tour) 1 (ex_mt_pick [2; 1]) = None /\
+  ivl_loads_of (proj_tour MultiOps (get_dim 0) (ginsert_after ex_mt_tour 1 (ex_mt_pick [2; 1]))) = [4; 0; 2; 5; 10; 5; 2; 2] /\
+  mt_evaluate_activity MultiOps PolicyLast (accept_route_state MultiOps true (Some ex_mt_cap) ex_mt_tour) 1 (ex_mt_pick [3; 1]) = Some false /\
+  ivl_load_feasible 10 (proj_tour MultiOps (get_dim 0) (ginsert_after ex_mt_tour 1 (ex_mt_pick [3; 1]))) = false.
+Proof. exact ex_mt_facts. Qed.
+
+(* the plain capacity feature with MultiDimLoad (RouteIntervals::Single, a tour without marker activities): an accepted insertion keeps
+   the load within the capacity at every point of the tour in each dimension - the single-interval simulation
+   Spec.Feasible.load_feasible of C06_eval_sound, now for every dimension count *)
+Theorem C06_md_insertion_sound_no_reloads : forall t cap idx x,
+  mt_tour_ok MultiOps t -> ml_tour_wf t -> act_wf MultiOps ml_wf x -> ml_wf cap ->
+  forallb (fun b => negb (is_marker_act MultiOps b)) t = true ->
+  (idx < length t)%nat -> is_marker_act MultiOps x = false ->
+  mt_evaluate_activity MultiOps PolicyLast (accept_route_state MultiOps false (Some cap) t) idx x = None ->
+  forall d, (d < LOAD_DIMENSION_SIZE)%nat ->
+    load_feasible (ml_get cap d) (proj_tour MultiOps (get_dim d) t) = true ->
+    simple_demand (a_dem (proj_act MultiOps (get_dim d) x)) ->
+    (ga_multi x = false -> d_pd (a_dem (proj_act MultiOps (get_dim d) x)) = 0) ->
+    load_feasible (ml_get cap d) (proj_tour MultiOps (get_dim d) (ginsert_after t idx x)) = true.
+Proof. exact md_insertion_sound_no_reloads. Qed.
+
+End C06_multitrip.
